@@ -16,7 +16,8 @@ ID = "C06"
 TECHNIQUE = "property-based testing (Hypothesis), differential: simulated values at the first modelled hour vs the same changes really applied to a clone (and vs a fresh build of the target inputs); invariants on dates, twins and rejection"
 LEVEL_TEXT = ("generated systems and valid change lists (numeric, hourly, time zone, choice, link, list, mixtures); "
               "simulation dated at the first hour compared value by value with a clone on which the changes are really "
-              "applied; for dates at which every pattern is still active no simulated hour precedes the date; twins "
+              "applied and, with the simulation switched on, over the whole model; optionally after another simulation on the "
+              "same model; for dates at which every pattern is still active no simulated hour precedes the date; twins "
               "paired both ways; naive / outside dates rejected")
 LEVEL_NOTE = "the clone shares the library's update machinery (C01 checks that machinery against fresh builds); a second comparison with a fresh build of the target inputs is reported under its own kind"
 RULE = ("Hypothesis draws a system spec, 1-3 valid simple edits on distinct attributes and a date kind. first: after "
